@@ -114,7 +114,9 @@ class Session:
         except BaseException as exc:  # noqa: BLE001 - the class is what is recorded
             if isinstance(exc, (KeyboardInterrupt, SystemExit)):
                 raise
-            return ("raise", None, type(exc).__name__)
+            # a subclass of TypeError / ValueError is a TypeError / ValueError (C13 speaks of the exception, not its name)
+            name = "TypeError" if isinstance(exc, TypeError) else "ValueError" if isinstance(exc, ValueError) else type(exc).__name__
+            return ("raise", None, name)
 
     # ---------------------------------------------------------------- operations
     def rate(self, mh, teams, ranks=ABSENT, scores=ABSENT, tau=ABSENT, limit_sigma=ABSENT, group="", role="", aux=None, positional=False):
